@@ -135,9 +135,11 @@ def isEndOfStream(substrate):
     substrate: :py:class:`IOBase`
         Stream to check
 
-    Returns
-    -------
-    : :py:class:`bool`
+    Yields
+    ------
+    : :py:class:`bool` or :py:class:`~pyasn1.error.SubstrateUnderrunError`
+        :py:class:`~pyasn1.error.SubstrateUnderrunError` object while a
+        non-blocking stream can't tell, then the answer
     """
     if isinstance(substrate, io.BytesIO):
         cp = substrate.tell()
@@ -147,9 +149,13 @@ def isEndOfStream(substrate):
         yield result
 
     else:
-        received = substrate.read(1)
-        if received is None:
-            yield
+        while True:
+            received = substrate.read(1)
+            if received is None:  # non-blocking stream has nothing yet
+                yield error.SubstrateUnderrunError()
+
+            else:
+                break
 
         if received:
             substrate.seek(-1, os.SEEK_CUR)
